@@ -203,6 +203,19 @@ def cell(key, feats):
             continue
         if a != b:
             problems.append(("dimension_value:%s" % dmn.name, "type %s gran %s sql %r -> type %s gran %s sql %r" % (dmn.type, dmn.granularity, dmn.sql, d2.type, d2.granularity, d2.sql)))
+    # a value that depends on the RELATIONSHIP: the measure by a dimension of the related model (only when the relationship and that dimension survive)
+    if r2 and "customers" in g2.models and g2.models["customers"].get_dimension("region") and o2.get_metric("m"):
+        try:
+            a = dbutil.canon_rows(L1.conn.execute(L1.compile(metrics=["orders.m"], dimensions=["customers.region"])).fetchall())
+        except Exception:
+            a = None
+        if a is not None:
+            try:
+                b = dbutil.canon_rows(L2.conn.execute(L2.compile(metrics=["orders.m"], dimensions=["customers.region"])).fetchall())
+                if a != b:
+                    problems.append(("join_value", "orders.m by customers.region: %s -> %s" % (a[:4], b[:4])))
+            except Exception as e:
+                problems.append(("join_broken", str(e)[:90].replace("\n", " ")))
     for s in o1.segments:
         if any(x.name == s.name for x in o2.segments):
             try:
@@ -303,7 +316,10 @@ def run(c):
             probs = [("harness_error", "%s: %s" % (type(e).__name__, str(e)[:120]))]
         fid = feat_id(feats)
         new = []
-        probs_all, probs = probs, probs
+        # a join-dependent value that differs only BECAUSE the measure itself / the model / its source already differs in this cell is that problem, not another one
+        if any(k.split(":")[0] in ("metric_value", "metric_broken", "model_lost", "source_changed", "export_error") and (":" not in k or k.endswith(":m")) for k, _ in probs):
+            probs = [(k, d) for k, d in probs if k not in ("join_value", "join_broken")]
+        probs_all = probs
         for kind, detail in probs:
             stats["problems_by_kind"][kind.split(":")[0]] = stats["problems_by_kind"].get(kind.split(":")[0], 0) + 1
             if kind in STRUCTURAL:
